@@ -19,3 +19,6 @@
   (and (> (str.len kw) 0) (not (= op nilv))
        (=> ((_ is v_cop) op) (and (bvule #x01 (cop_of op)) (bvule (cop_of op) #x06)))
        (not (= ex nilv))))
+; dynamic type implements Operator (engine-declared impl_Operator over foreign type ids)
+(declare-fun impl_Operator (Int) Bool) ;;@trusted abstract: which foreign dynamic types implement Operator
+(define-fun isOperator ((v Val)) Bool (or ((_ is v_cop) v) (and ((_ is v_other) v) (impl_Operator (o_ty v)))))
